@@ -11,7 +11,7 @@ WT=/tmp/wt-$ID
 OUT=/verif/seeded/$ID
 mkdir -p $OUT
 cd $WT || exit 2
-git diff -- 'crates/*/src' > $OUT/patch.diff
+git diff > $OUT/patch.diff
 [ -s $OUT/patch.diff ] || { echo "empty patch"; exit 2; }
 # demonstration files = untracked files except SEEDED.md
 git status --short | awk '$1=="??"{print $2}' | grep -v '^SEEDED.md$' | grep -v '^target' > $OUT/demo_files.txt
